@@ -1,6 +1,7 @@
 package harness
 
 import (
+	"regexp"
 	"encoding/json"
 	"fmt"
 	"os"
@@ -64,6 +65,8 @@ func offsetIDs(ops []Op, off int) {
 
 func (c09) Generate(r *rand.Rand, tier string) (sim.Config, any) {
 	cfg := RandomSimConfig(r)
+	cfg.StmtYield = pick(r, []float64{0, 0, 0.02, 0.1}) // statement-level preemption in shard.go, the index dispatch, the inverted / text indexes and the pipeline helpers
+	cfg.TimeJumpProb = pick(r, []float64{0, 0, 0.02})    // timers (there are none on the pinned tree) may fire while stages are parked
 	old := vecStyle
 	vecStyle = pickVecStyle(r)
 	defer func() { vecStyle = old }()
@@ -558,8 +561,13 @@ func (c09) Execute(env *Env) {
 func errSigSite(msg string) string {
 	if i := lastIndex(msg, ": "); i >= 0 && msg[i+2:] == "not found" {
 		if j := lastIndex(msg[:i], ": "); j >= 0 {
-			return stripDigits(msg[j+2:])
+			return stripIDs(msg[j+2:])
 		}
 	}
-	return errSigStr(msg)
+	return stripIDs(errSigStr(msg))
 }
+
+var uuidRe = regexp.MustCompile(`[0-9a-fA-F-]{8,}`)
+
+// stripIDs removes uuids / long hex runs and digits, so that one failing site is one signature.
+func stripIDs(s string) string { return stripDigits(uuidRe.ReplaceAllString(s, "<id>")) }
